@@ -1499,6 +1499,32 @@ class _Ops:
         k = kind_of(t)
         old = t.grid()
         mode = op["mode"]
+        if mode == "refuse":
+            # a request the model must refuse (B-spline models only support 2n-1 refinement on the same domain):
+            # a refused operation leaves the transform exactly as it was
+            if fam != "spline" or k not in ("P", "B"):
+                return StepResult("skipped")
+            size = [int(s_) for s_ in old.size()]
+            if op.get("variant") == "domain":
+                st0, bad_grid = self.guarded(lambda: Grid(size=size, spacing=[float(v) * 1.5 for v in old.spacing()], center=old.center(), direction=old.direction(), align_corners=True))
+            else:
+                st0, bad_grid = self.guarded(lambda: old.resize([2 * n for n in size], align_corners=True))
+            if st0 != "ok":
+                return StepResult("expected_error", "grid_-resize-assert")
+            before = self._holds(t)
+            st, r = self.guarded(lambda: t.grid_(bad_grid), expect=(ValueError,))
+            if st == "expected":
+                self.c["checks"]["refused_operation_leaves_state"] += 1
+                self.nontrivial = True
+                if self._holds(t) != before:
+                    self.set_buf(x, "unknown")
+                    return StepResult("expected_error", "grid_-refused", [self.viol("C09", "torn-state", x, "grid_:refused", {"what": "a refused grid_ changed the transform"})])
+                return StepResult("expected_error", "grid_-refused")
+            self.set_buf(x, "unknown")
+            self.related_unknown(x)
+            self.mark_pairs(x, True, "grid_")
+            x.affine_params = False
+            return StepResult("ok" if st == "ok" else "expected_error", "grid_-refuse-" + st)
         if mode == "subdivide":
             if fam != "spline" and not (fam == "dense" and old.align_corners()):
                 return StepResult("skipped")
@@ -2037,6 +2063,28 @@ class _Ops:
         out.violations.extend(sub.violations)
         return out
 
+    def op_cast(self, op) -> StepResult:
+        """``t.double().float()``: Module._apply re-creates every parameter value and buffer; nothing the transform means
+        may change (float32 -> float64 -> float32 is exact), and whatever was stale stays stale."""
+        x = self.get(op["h"])
+        if x is None:
+            return StepResult("skipped")
+        try:
+            if any(b.grad_fn is not None for b in x.obj.buffers()):
+                return StepResult("skipped")  # converting buffers that carry autograd history is not a pure re-creation
+        except RuntimeError:
+            return StepResult("skipped")
+        before = self._holds(x.obj)
+        st, r = self.guarded(lambda: x.obj.double().float())
+        bad = self.classify(st, r, x, "double-float")
+        if bad:
+            return bad
+        self.c["checks"]["cast_keeps_state"] += 1
+        if self._holds(x.obj) != before:
+            return StepResult("ok", "cast-changed", [self.viol("C09", "cast-changed-state", x, "double-float", {})])
+        self.note_change(x, "cast")
+        return StepResult("ok", "cast")
+
     def op_restore(self, op) -> StepResult:
         """Roll a live transform back to a checkpoint: ``load_state_dict`` copies the durable values in place."""
         x = self.get(op["h"])
@@ -2236,10 +2284,10 @@ PROFILES = {
     # weights of operation kinds; observation ops are additionally boosted right after a change
     "C09": {"call": 10, "disp": 9, "update": 2, "clear": 1.5, "data_": 6, "inplace": 5, "sgd": 2, "reset": 2, "grid_": 5,
             "condition_": 4, "copy": 6, "deepcopy": 1.5, "inverse": 3, "link_": 1.5, "compose": 2, "roundtrip": 2,
-            "arm": 2, "interrupt": 2, "checkpoint": 1.5, "restart": 1.5, "fit": 2.5, "restore": 1},
+            "arm": 2, "interrupt": 2, "checkpoint": 1.5, "restart": 1.5, "fit": 2.5, "restore": 1, "cast": 1},
     "C07": {"call": 4, "disp": 2, "update": 1, "clear": 0.5, "data_": 5, "inplace": 7, "sgd": 3, "reset": 1.5, "grid_": 1,
             "condition_": 4, "copy": 2, "deepcopy": 0.5, "inverse": 9, "link_": 0.5, "compose": 2.5, "roundtrip": 16,
-            "arm": 1, "interrupt": 0.5, "checkpoint": 0.5, "restart": 0.5, "fit": 1.5, "restore": 0.5},
+            "arm": 1, "interrupt": 0.5, "checkpoint": 0.5, "restart": 0.5, "fit": 1.5, "restore": 0.5, "cast": 0.5},
 }
 
 
@@ -2366,10 +2414,21 @@ class _Gen:
         if len(live) >= sc["max_handles"]:
             for k in ("copy", "deepcopy", "inverse", "compose", "restart"):
                 W[k] = 0
+        last = getattr(self, "last_kind", None)
+        if last in ("grid_", "data_", "condition_", "inplace", "reset", "fit", "link_") and self.hot and rng.chance(0.2):
+            # the same kind of state change twice in a row on the same handle (an update lost or skipped because
+            # "nothing changed" shows only then)
+            keep_hot, self.hot = self.hot, self.hot[:1]
+            op = getattr(self, "gen_" + last)(rng)
+            self.hot = keep_hot
+            if op is not None and op.get("h") == keep_hot[0]:
+                self.last_kind = None
+                return op
         for _ in range(12):
             kind = rng.weighted(sorted(W.items()))
             op = getattr(self, "gen_" + kind)(rng)
             if op is not None:
+                self.last_kind = kind
                 return op
         x = self.pick(rng)
         return {"op": "call", "h": x.hid, "pseed": rng.subseed()}
@@ -2450,6 +2509,8 @@ class _Gen:
         fam = family(x.obj)
         D = self.D
         if fam == "spline":
+            if rng.chance(0.15):
+                return {"op": "grid_", "h": x.hid, "mode": "refuse", "variant": rng.choice(["size", "domain"])}
             dims = [i for i in range(D) if rng.chance(0.7)] or [0]
             return {"op": "grid_", "h": x.hid, "mode": "subdivide", "dims": dims}
         mode = rng.weighted([("sub", 5), ("new", 3), ("acflip", 1.5), ("subdivide", 2)])
@@ -2598,6 +2659,10 @@ class _Gen:
             op["grid"] = gen.grid_desc(rng, self.D, 6, 14 if self.D == 2 else 8)
             op["grid"]["center"] = list(self.base_grid_desc["center"])
         return op
+
+    def gen_cast(self, rng):
+        x = self.pick(rng, lambda y: not self.has_none(y) and not any(kind_of(e.obj) in ("C", "L") for e in self.elems(y)))
+        return None if x is None else {"op": "cast", "h": x.hid}
 
     def gen_restore(self, rng):
         if not self.ckpt:
